@@ -324,6 +324,20 @@ pub fn push_cut(d: DuctId, bytes: &[u8], cuts: &[usize]) {
     }
 }
 
+/// Delivers the next pending chunk of `d` right now (an actor acting as the
+/// network). Returns false if nothing is pending.
+pub fn force_deliver(d: DuctId) -> bool {
+    let has = with(|w| matches!(w.ducts[d].pending.front(), Some(Chunk::Data(_)) | Some(Chunk::Eof) | Some(Chunk::Err(_))));
+    if has {
+        with(|w| {
+            let s = w.step;
+            w.log.push(format!("@{} forced Deliver({})", s, d));
+        });
+        apply_env(Ev::Deliver(d));
+    }
+    has
+}
+
 pub fn pending_chunks(d: DuctId) -> usize {
     with(|w| w.ducts[d].pending.len())
 }
@@ -347,6 +361,11 @@ pub fn set_wmode(d: DuctId, m: WMode) {
     if let Some(wk) = wk {
         wk.wake();
     }
+}
+
+/// Pre-allocates the tap so that its growth does not show up in heap measurements.
+pub fn reserve_tap(d: DuctId, n: usize) {
+    with(|w| w.ducts[d].tap.reserve(n));
 }
 
 pub fn tap(d: DuctId) -> Vec<u8> {
